@@ -776,6 +776,9 @@ func saveloadGen(tier string, r *rng, emit func(string)) {
 	fn([]string{"mk=func(n){func inner(){n*2}}", "g=mk(5)"}, "g()")
 	fn([]string{"a=[x=>x+1,func(){2}]"}, "a[0](1)", "a[1]()")
 	fn([]string{"func f(){1}", "g=f"}, "g()", "f()")
+	// an alias of a named function whose own name now holds something else (recorded class alias-of-named-function-rebinds-its-name)
+	fn([]string{"func f(x){x+1}", "h=f", "f=3"}, "h(1)", "f")
+	fn([]string{"func zf(x){x+1}", "h=zf", "zf=\"s\""}, "h(1)", "zf") // the alias is written BEFORE the name's own line: no finding
 	fn([]string{"y=3", "f=func(){y=y+1;y}"}, "f()", "f()", "y")
 	// 3b. operator x prefix-operator operand table (seeded change C14-5: the compact text of `a - --b` was saved as `a---b`, which
 	// loads as `a-- - b`): the saved (compact) text of a function must behave like the function, for every pair of adjacent operators
